@@ -13,6 +13,9 @@ import (
 type RStr struct {
 	S  B `json:"s"`
 	S2 B `json:"s2,omitempty"` // second operand for the concatenation law
+	// Scale > 0: S is embedded between Scale bytes of well-formed filler
+	// lines on each side (size-dependent code paths)
+	Scale int `json:"scale,omitempty"`
 }
 
 func init() {
@@ -97,8 +100,33 @@ func c07Laws(s []byte) (classes []string, err error) {
 	return classes, nil
 }
 
+// scribble over the slices the marker accessors hand out: a caller owns
+// them, the library's own markers must not change
+func scribbleMarkerAccessors() {
+	for _, m := range [][]byte{redact.StartMarker(), redact.EndMarker(), redact.RedactedMarker()} {
+		for i := range m {
+			m[i] = '?'
+		}
+	}
+}
+
+// scaled embeds s between n bytes of safe, well-formed filler lines.
+func scaled(s []byte, n int) []byte {
+	if n <= 0 {
+		return s
+	}
+	line := []byte("filler line of safe text " + startS + "u" + endS + " 0123456789\n")
+	var pad []byte
+	for len(pad) < n {
+		pad = append(pad, line...)
+	}
+	out := append(append([]byte(nil), pad...), s...)
+	return append(out, pad...)
+}
+
 func checkC07(r *RStr) Result {
-	s := []byte(r.S)
+	scribbleMarkerAccessors()
+	s := scaled([]byte(r.S), r.Scale)
 	res := Result{NonTrivial: hasMarker(s)}
 	cl, err := c07Laws(s)
 	res.Classes = cl
